@@ -45,8 +45,10 @@ STUBS += ["`cart_surfaces` shapes: the grid (directions, radii, scipy.spatial.Vo
 def bounds(tier):
     if tier == "quick":
         return {"n_b": [1, 2, 3], "n_o": [1, 2, 3], "n_t": [1, 2, 3], "direction_patterns": "all symmetric patterns", "rotation_patterns": "all (symbolic, by forking)",
-                "cells": "<= 18 (n_b=3 only with n_o*n_t<=6)"}
-    return {"n_b": [1, 2, 3, 4], "n_o": [1, 2, 3, 4], "n_t": [1, 2, 3, 4], "cells": "<= 36; n_b=4 with seeded halves of the 4096 rotation patterns"}
+                "cells": "<= 18 (n_b=3 only with n_o*n_t<=6)", "cartesian_stand_in_family": "(n_b, n_o, n_t) in {(1,2,2), (2,2,2), (2,3,1), (2,1,2)}",
+                "cartesian_face_areas": "real Qhull combinatorics of ico_{4,5,6,12} x {2,3} radii; one symbolic positive area per distinct face polygon"}
+    return {"n_b": [1, 2, 3, 4], "n_o": [1, 2, 3, 4], "n_t": [1, 2, 3, 4], "cells": "<= 36; n_b=4 with seeded halves of the 4096 rotation patterns",
+            "cartesian_face_areas": "real Qhull combinatorics of ico_{4,5,6,8,12,20} x {2,3} radii; one symbolic positive area per distinct face polygon"}
 
 
 def shapes(tier, seed):
